@@ -136,7 +136,7 @@ func run(e *vlib.Env) vlib.Result {
 	res.Sig = vlib.Sig(res.Class, shape(prog), ctl.Fingerprint())
 	cd := rn.Close(1)
 	if o, _ := vlib.WaitClosed(cd, vlib.WD); o == vlib.Done {
-		vlib.WaitClosed(rn.ConsumersDone(), vlib.WD)
+		vlib.WaitUntil(rn.ConsumersIdle, vlib.WD)
 	} else {
 		res.Count("teardown_close_not_returned", 1)
 	}
@@ -264,8 +264,31 @@ func judge(rn *gcw.Run, res *vlib.Result, stuck bool, dump string) {
 			// cannot happen: PubsDone was reached
 			res.Fail("internal", "publish without end stamp although publishers finished: %v", stuckPubs)
 		} else {
-			res.Fail("publish-stuck", "Publish never returned although no subscription of its topic withholds an Ack (process quiescent): %v", stuckPubs)
-			res.Witness = dump
+			// characterise the stuck state from the goroutine snapshot (stable ids, used to tell the known deadlock from anything else)
+			var shape []string
+			nested, writer, outer := false, false, false
+			for _, g := range vlib.ParseDump(dump) {
+				if g.State == "sync.RWMutex.RLock" && g.Has("gochannel.(*GoChannel).Publish") && g.Has("gcw.(*Run).consume") {
+					nested = true
+				}
+				if g.Has("sync.(*RWMutex).Lock") && (g.Has("gochannel.(*GoChannel).Subscribe") || g.Has("gochannel.(*GoChannel).Subscribe.func1")) {
+					writer = true
+				}
+				if g.Has("gochannel.(*GoChannel).waitForAckFromSubscribers") {
+					outer = true
+				}
+			}
+			if nested {
+				shape = append(shape, "nested-publish-waits-for-read-lock")
+			}
+			if writer {
+				shape = append(shape, "subscribe-or-unsubscribe-waits-for-write-lock")
+			}
+			if outer {
+				shape = append(shape, "outer-publish-waits-for-ack")
+			}
+			res.Fail("publish-stuck", "Publish never returned although no subscription of its topic withholds an Ack (process quiescent); shape=%v; stuck: %v", shape, stuckPubs)
+			res.Witness = vlib.Trunc(dump, 60000)
 		}
 	}
 	res.Count("deliveries", totalDel)
